@@ -9,6 +9,7 @@ use crate::interp::{self, History, Oracles};
 use crate::runner::Property;
 use crate::strat;
 use super::c03b::WakeCase;
+use super::c10::C10;
 use super::multi::{self, MultiCase};
 use serde::{Deserialize, Serialize};
 
@@ -21,6 +22,9 @@ pub enum HCase {
     Multi(MultiCase),
     /// C06b scheduled program (C06 only).
     Drop(super::c06b::DropCase),
+    /// A composite (multi-step) operation of the C10 driver under C06's leak
+    /// and double-free audit: the operation state is reused from step to step.
+    Composite(super::c10::Case),
 }
 
 pub(super) fn with_multi(seq: BoxedStrategy<History>, weight: u32) -> BoxedStrategy<HCase> {
@@ -65,7 +69,7 @@ impl Property for C01 {
         let case = match case {
             HCase::Seq(h) => h,
             HCase::Multi(m) => return run_multi(m, ctx, "C01", &["dropped-between-two-completions", "dropped-after-some-results"]),
-            HCase::Drop(_) => return,
+            HCase::Drop(_) | HCase::Composite(_) => return,
         };
         let feats = interp::execute(case, Oracles { c01: true, ..Oracles::default() }, ctx);
         ctx.nontrivial = feats.contains("dropped-while-running") && feats.iter().any(|f| f.starts_with("k:") && f != "k:truncate") || feats.contains("restart");
@@ -94,7 +98,7 @@ impl Property for C02 {
         let case = match case {
             HCase::Seq(h) => h,
             HCase::Multi(m) => return run_multi(m, ctx, "C02", &[">=3-results-queued", ">=3-results-in-one-poll", "zc-resolved"]),
-            HCase::Drop(_) => return,
+            HCase::Drop(_) | HCase::Composite(_) => return,
         };
         let feats = interp::execute(case, Oracles { c02: true, ..Oracles::default() }, ctx);
         ctx.nontrivial = feats.contains("out-of-order") || feats.contains("multishot-split");
@@ -175,7 +179,8 @@ impl Property for C06 {
             let base = with_multi((strat::ring_cfg(3), proptest::collection::vec(strat::step(strat::kind_basic().boxed(), 1, 6), 0..70)).prop_map(|(cfg, steps)| History { cfg, steps, teardown: None }).boxed(), 1);
             let sched = (1u8..=3, proptest::collection::vec(1u8..=2, 1..=2), 1u8..=3, proptest::collection::vec(proptest::bool::weighted(0.8), 3), proptest::bool::weighted(0.25), proptest::collection::vec(any::<u16>(), 0..80), strat::maybe_pct(3, 120))
                 .prop_map(|(sq_log2, droppers, polls, complete_before_poll, full_queue, drop_tape, pct)| HCase::Drop(super::c06b::DropCase { sq_log2, droppers, polls, complete_before_poll, full_queue, drop_tape, pct }));
-            prop_oneof![4 => base, 1 => sched].boxed()
+            let composite = C10::strategy(Tier::Quick).prop_map(HCase::Composite);
+            prop_oneof![8 => base, 2 => sched, 1 => composite].boxed()
         }
     }
     fn cases(tier: Tier) -> u32 {
@@ -195,6 +200,10 @@ impl Property for C06 {
                 ctx.fingerprint = format!("sched-drop|{}|{:x}", classes.join("|"), crate::common::fnv(&format!("{d:?}")) & 0xffff);
                 return;
             }
+            HCase::Composite(c) => {
+                super::c10::run_audited(c, ctx);
+                return;
+            }
         };
         let feats = interp::execute(case, Oracles { c06: true, ..Oracles::default() }, ctx);
         ctx.nontrivial = feats.contains("dropped-while-running") && (feats.contains("completed-after-drop") || feats.contains("drop-with-full-queue") || feats.contains("cancel:Already") || feats.contains("cancel:NotFound"));
@@ -202,7 +211,7 @@ impl Property for C06 {
         ctx.fingerprint = super::fingerprint(case, &feats);
     }
     fn rule() -> &'static str {
-        "proptest histories with drops at every life-cycle point (unpolled, blocked on a full queue, queued, in flight, final posted, final consumed) crossed with scripted cancel-race outcomes (cancel wins / EALREADY / ENOENT) and full vs non-full queues. Oracle: the SQEs published by a drop are diffed against the model (exactly one ASYNC_CANCEL with addr = that operation's user_data, user_data 2, CQE_SKIP_SUCCESS, iff running and room; else none); the operation-state block and resources must be live until, and dead after, the Ring::poll that consumes the final completion (tracking allocator), never freed twice, nothing live at the end. Non-trivial = dropped while running and (cancel lost, or refused for lack of room, or completed after the drop). Distinct = distinct (ring class, feature set) fingerprints. One case in five runs the multi-completion driver instead (props/multi.rs): 1..4 operations among multishot accept, zero-copy send / send_vectored and plain write on a 2..8 entry ring; steps poll an operation (same or new waker), let the kernel post its next completion (multishot: a result with or without IORING_CQE_F_MORE, or a final error; zero-copy: the result with F_MORE, later the notification, or the early-failure form), Ring::poll, drop a future with a scripted cancel outcome, drop the Ring (also with a zero-copy notification outstanding, after which only futures are dropped and the kernel posts what it owes). There the C06 oracle is the same SQE diff on drop (exactly one ASYNC_CANCEL for a running operation when there is room, none otherwise, none after the Ring is gone) and: state and resources of a dropped operation are live until, and dead after, the Ring::poll that consumes its final completion (not the first of two), never freed twice; non-trivial (multi) = dropped between two completions / after some results / completed after the drop."
+        "proptest histories with drops at every life-cycle point (unpolled, blocked on a full queue, queued, in flight, final posted, final consumed) crossed with scripted cancel-race outcomes (cancel wins / EALREADY / ENOENT) and full vs non-full queues. Oracle: the SQEs published by a drop are diffed against the model (exactly one ASYNC_CANCEL with addr = that operation's user_data, user_data 2, CQE_SKIP_SUCCESS, iff running and room; else none); the operation-state block and resources must be live until, and dead after, the Ring::poll that consumes the final completion (tracking allocator), never freed twice, nothing live at the end. Non-trivial = dropped while running and (cancel lost, or refused for lack of room, or completed after the drop). Distinct = distinct (ring class, feature set) fingerprints. One case in five runs the multi-completion driver instead (props/multi.rs): 1..4 operations among multishot accept, zero-copy send / send_vectored and plain write on a 2..8 entry ring; steps poll an operation (same or new waker), let the kernel post its next completion (multishot: a result with or without IORING_CQE_F_MORE, or a final error; zero-copy: the result with F_MORE, later the notification, or the early-failure form), Ring::poll, drop a future with a scripted cancel outcome, drop the Ring (also with a zero-copy notification outstanding, after which only futures are dropped and the kernel posts what it owes). There the C06 oracle is the same SQE diff on drop (exactly one ASYNC_CANCEL for a running operation when there is room, none otherwise, none after the Ring is gone) and: state and resources of a dropped operation are live until, and dead after, the Ring::poll that consumes its final completion (not the first of two), never freed twice; non-trivial (multi) = dropped between two completions / after some results / completed after the drop. One case in eleven is a composite operation of the C10 driver (write_all / send_all / read_n / recv_n and their vectored forms under generated short transfers, whose operation state is reset and reused from step to step): after the future resolved and everything was dropped, no block allocated during the case may be live and nothing may have been freed twice."
     }
     fn assumptions() -> Vec<&'static str> {
         vec![SIM_ASSUMPTION]
@@ -226,7 +235,7 @@ impl Property for C09 {
         let case = match case {
             HCase::Seq(h) => h,
             HCase::Multi(m) => return run_multi(m, ctx, "C09", &["restart"]),
-            HCase::Drop(_) => return,
+            HCase::Drop(_) | HCase::Composite(_) => return,
         };
         let feats = interp::execute(case, Oracles { c09: true, ..Oracles::default() }, ctx);
         ctx.nontrivial = feats.contains("restart");
@@ -246,16 +255,32 @@ impl Property for C12 {
     const ID: &'static str = "C12";
     type Case = History;
     fn strategy(_tier: Tier) -> BoxedStrategy<History> {
-        (strat::ring_cfg_wide(), proptest::collection::vec(strat::step(strat::kind_basic().boxed(), 1, 3), 0..40), strat::teardown())
-            .prop_map(|(mut cfg, steps, teardown)| {
-                // In-flight operations at Ring drop must fit the completion
-                // queue in the default generator: at least 16 CQ entries.
-                if cfg.cq_entries() < 16 {
-                    cfg.cq_log2 = Some(4);
-                }
-                History { cfg, steps, teardown: Some(teardown) }
-            })
-            .boxed()
+        let general = (strat::ring_cfg_wide(), proptest::collection::vec(strat::step(strat::kind_basic().boxed(), 1, 3), 0..40), strat::teardown()).prop_map(|(mut cfg, steps, teardown)| {
+            // In-flight operations at Ring drop fit the completion queue in
+            // this class: at least 16 CQ entries.
+            if cfg.cq_entries() < 16 {
+                cfg.cq_log2 = Some(4);
+            }
+            History { cfg, steps, teardown: Some(teardown) }
+        });
+        // Overflow class: a completion queue of 1..4 entries and 3..14
+        // operations running when the teardown starts, so that the
+        // cancellations of the Ring's drop overflow the queue, by more than
+        // its size in many cases (several flushes needed).
+        let overflow = (0u8..=1, 0u8..=2, proptest::collection::vec((strat::kind_basic(), strat::outcome()), 3..=14), proptest::collection::vec(strat::step(strat::kind_basic().boxed(), 1, 3), 0..6), strat::teardown()).prop_map(|(sq_log2, cq_log2, ops, tail, teardown)| {
+            let mut cfg = crate::interp::world::RingCfg::simple(sq_log2);
+            cfg.cq_log2 = Some(cq_log2.max(sq_log2));
+            let mut steps = Vec::new();
+            for (kind, outcome) in ops {
+                steps.push(interp::Step::Start { kind, faults: Vec::new(), outcome });
+                // The newest operation is the last live one.
+                steps.push(interp::Step::Poll { op: u16::MAX, fresh_waker: false });
+                steps.push(interp::Step::RingPoll { inline: Vec::new(), block: false });
+            }
+            steps.extend(tail);
+            History { cfg, steps, teardown: Some(teardown) }
+        });
+        prop_oneof![6 => general, 1 => overflow].boxed()
     }
     fn cases(tier: Tier) -> u32 {
         tier.pick(20_000, 400_000)
@@ -270,6 +295,6 @@ impl Property for C12 {
         "proptest histories (operations in every state: unpolled, blocked on a full queue, queued, running, abandoned, finished; optionally a ReadBufPool with live ReadBufs and extra SubmissionQueue clones) that end in Teardown(pi): a generated permutation of dropping {Ring, each queue handle, the AsyncFd, each future, the pool, each ReadBuf}, some drops on a helper thread, then wake() on a surviving handle. Oracle: no panic; each region mapped on the ring descriptor is unmapped exactly once with the same (addr,len) and nothing else; the ring descriptor is closed exactly once, after the last unmap; the Ring's drop submits what is queued, issues SYNC_CANCEL, leaves nothing in flight and reclaims every abandoned operation's state; a buffer ring is never freed while registered; after all handles are gone no simulator-issued descriptor is open, nothing is registered, no heap block or waker clone is left. Non-trivial = the Ring was not the last object dropped and something was queued or in flight. Distinct = distinct (ring class, feature set) fingerprints."
     }
     fn assumptions() -> Vec<&'static str> {
-        vec![SIM_ASSUMPTION, "the number of operations in flight when the Ring is dropped is at most ~48 with a completion queue of >= 16 entries (the overflow-at-drop class has its own regression replay under C06)"]
+        vec![SIM_ASSUMPTION, "six cases in seven: at most ~48 operations in flight when the Ring is dropped, with a completion queue of >= 16 entries; one in seven: 3..14 running operations and a completion queue of 1..4 entries (overflow at Ring drop, also by more than the queue size)"]
     }
 }
